@@ -127,8 +127,8 @@ def fam_timeout(seed, i):
     rng = random.Random(f"timeout-{seed}-{i}")
     sc = base("timeout", seed, i, rng, horizon=60)
     sc["idle_only"] = rng.random() < 0.7
-    t = rng.choice([0, 2, 3, 3, 4])
-    cfg = {"cap": rng.choice([-1, -1, 1, 2]), "tmo": t, "failto": t > 0 and rng.random() < 0.3, "pscr": [Y] * rng.choice([0, 1]), "owning": rng.random() < 0.3}
+    t = rng.choice([-1, 2, 3, 3, 4, 0])       # -1: none; 0: a configured timeout of zero
+    cfg = {"cap": rng.choice([-1, -1, 1, 2]), "tmo": t, "failto": t >= 0 and rng.random() < 0.3, "pscr": [Y] * rng.choice([0, 1]), "owning": rng.random() < 0.3}
     # callbacks are not handlers: however long started / stopped take, the handler timeout does not apply to them
     r = rng.random()
     if r < 0.25:
